@@ -52,6 +52,12 @@ def run(ctx):
 
     # R2 ownership + key provenance
     r2 = rep.rule('C08-R2', 'connection-table entries are reached only through keys computed as generate(client_info, key) from the ClientInfo created fresh for this frame in reply()', floor=4)
+    # ... and that key is a hash of the whole 4-tuple: every endpoint field is fed to the hash, whole and by itself,
+    # on every path (two flows can then share state only through a hash collision, never by construction)
+    from rules.c06 import cookie_inputs
+    for ok_, key_, det_, loc_ in cookie_inputs(F):
+        if key_.startswith('generate:feeds:') or key_.startswith('generate:write:'):
+            rep.check(r2, ok_, 'key:' + key_, det_, loc_)
     tcp = F.fn('layer_4::tcp::repl')
     callers = set()
     for tf in TABLE_FNS:
